@@ -249,4 +249,4 @@ def units(tier):
     # K22c: registered with the product expression opaque (ghost table PR) - with the expression itself in the specification the
     # obligations did not finish on the SAT back end (2400 s cap, <= 3 entries) - see DESIGN 10.16
     return [X.guarded("K22b_spvecfp_plus", _unit, 3 if tier == "thorough" else 2),
-            X.guarded("K22c_spvecfp_scale", _scale_unit, 4 if tier == "thorough" else 3)]
+            X.guarded("K22c_spvecfp_scale", _scale_unit, 8 if tier == "thorough" else 4)]
